@@ -301,6 +301,42 @@ def check(P, R, tier):
         else:
             R.ob("RF7a-setter", "dt_set_base stores a function of its argument only", True)
 
+    # a time-only --base is stored with its type unknown (there is no date to type it by), so the getter's clock branch is taken
+    # for it: whatever that branch stores into `base` must carry the time that was set (RF7a-keep)
+    for t in P.tus:
+        gb = t.functions.get("dt_get_base")
+        if gb is None or getattr(gb, "body", None) is None or t.obj in EXEMPT_UNITS or not t.obj.startswith("libdut_a-"):
+            continue
+        R.saw(gb)
+        stores = [x for x in gb.walk() if x.get("k") == "BinaryOperator" and x.get("op") == "=" and strip(x["c"][0]).get("k") == "DeclRefExpr"
+                  and strip(x["c"][0]).get("dk") == "gvar" and strip(x["c"][0]).get("n") == "base"]
+        if not stores:
+            raise AnalysisBroken("RF7a-keep: dt_get_base does not store into `base` any more")
+
+        def _mem(e, root_pred, name):
+            e = strip(e)
+            if e is None or e.get("k") != "MemberExpr" or e.get("n") != name:
+                return False
+            b = strip(e["c"][0])
+            while b is not None and b.get("k") == "MemberExpr" and not b.get("n"):
+                b = strip(b["c"][0])         # members of anonymous structs / unions
+            return root_pred(b)
+        for st in stores:
+            r = strip(st["c"][1])
+            kept = False
+            if r is not None and r.get("k") == "DeclRefExpr" and r.get("dk") in ("var",):
+                for x in gb.walk():
+                    if x.get("k") == "BinaryOperator" and x.get("op") == "=" \
+                            and _mem(x["c"][0], lambda b: b is not None and b.get("d") == r.get("d"), "t") \
+                            and _mem(x["c"][1], lambda b: b is not None and b.get("dk") == "gvar" and b.get("n") == "base", "t"):
+                        kept = True
+            if kept:
+                R.ob("RF7a-keep", "dt_get_base: the value it stores when the base has no type carries the time part a time-only --base set", True)
+            else:
+                R.finding("RF7a-keep", gb, "clock value stored over the base", "dt_get_base stores `%s` over the base whenever its type is unknown -- "
+                          "that is also the case after `--base HH:MM:SS` (a time has no date type), so the hour, minute and second of the "
+                          "base are replaced by the wall clock's" % expr_text(st["c"][1])[:60], st)
+
     # ---------------------------------------------------------------- RF7b: locale partition
     loc = P.tu("dt-locale.c")
     names = ("long_wday", "abbr_wday", "long_mon", "abbr_mon")
